@@ -37,19 +37,22 @@ func init() {
 		ID: "C06",
 		Rule: "exhaustive: (A) every set of ≤3 declared media-type keys out of 9 (exact, with parameters, type/*, */*, no-slash) × 16 Content-Type texts × accept/reject schema patterns × required; " +
 			"(B) object schemas with a readOnly/nullable/typed property, a writeOnly property, every required subset, additionalProperties nil/true/false × 16 object values × ExcludeReadOnlyValidations; " +
-			"(C) urlencoded: 2 properties of every primitive/array type × 7 field texts each × nullable/required × encodings; (D) multipart part lists; " +
-			"then a seeded random stream of nested schemas × schema-directed values (valid and mutated) × JSON renderings (whitespace, duplicate keys, trailing data) × raw/malformed bodies × media-type sets × headers. " +
-			"A case is non-trivial when the model reports at least one non-default branch (selection level, decoder, outcome class, read-only handling, value shape).",
+			"(B2) the same features declared inside a member of allOf/anyOf/oneOf (× member/top-level required × 4 member layouts × 16 values × the option), not, nested compositions, null against compositions; " +
+			"blank and white-space padded bodies × 9 content-type situations × required; " +
+			"(C) urlencoded: 2 properties of every primitive/array type × 7 field texts each × nullable/required × encodings; (C2) properties declared inside allOf/anyOf/oneOf members (also nested, also twice) × 5 encodings × 6 texts; " +
+			"(C3) property schemas that are compositions themselves × 8 field situations; (D) multipart part lists, also against allOf schemas; " +
+			"then a seeded random stream of nested schemas with compositions × schema-directed values (valid and mutated) × JSON renderings (whitespace, duplicate keys, trailing data, blank) × raw/malformed bodies × media-type sets × headers (also a second header value) × MultiError. " +
+			"A case is non-trivial when the model reports at least one non-default branch (selection level, decoder, outcome class, read-only handling, composition keywords, value shape).",
 		Exhaustive: true,
 		Gen:        genC06,
 		Run:        runC06,
 		Compare:    cmpC06,
 		Shrink:     shrinkC06,
 		Assumptions: []string{
-			"schemas range over the fragment type/nullable/readOnly/writeOnly/minLength/maximum/properties/required/additionalProperties(bool)/items; the full validator is property C01",
+			"schemas range over the fragment type/nullable/readOnly/writeOnly/minLength/maximum/properties/required/additionalProperties(bool)/items/not/oneOf/anyOf/allOf (no discriminator, no default); the full validator is property C01",
 			"numbers in bodies are integers |n| ≤ 10^6 and n+0.5 (exact in float64); number texts in forms are decimal [+-]digits or [+-]digits.5 without leading zeros, or non-numeric",
 			"encoding/json, net/url.ParseQuery, mime and mime/multipart are trusted: what they make of the body text is an input of the model",
-			"array properties of form bodies carry items; per-property styles only form/spaceDelimited/pipeDelimited on arrays; YAML/CSV/zip decoders and nested form parts are outside the model and not generated",
+			"array properties of form bodies carry items; per-property styles only form/spaceDelimited/pipeDelimited on arrays; object-typed properties inside composition members of a form schema, one name declared as integer and as number, YAML/CSV/zip decoders and nested form parts are outside the model and not generated",
 		},
 	})
 }
@@ -365,6 +368,18 @@ func c06Schema(j any) *openapi3.SchemaRef {
 	if m["items"] != nil {
 		s.Items = c06Schema(m["items"])
 	}
+	if m["not"] != nil {
+		s.Not = c06Schema(m["not"])
+	}
+	for _, x := range jlist(m["oneOf"]) {
+		s.OneOf = append(s.OneOf, c06Schema(x))
+	}
+	for _, x := range jlist(m["anyOf"]) {
+		s.AnyOf = append(s.AnyOf, c06Schema(x))
+	}
+	for _, x := range jlist(m["allOf"]) {
+		s.AllOf = append(s.AllOf, c06Schema(x))
+	}
 	return s.NewRef()
 }
 
@@ -414,6 +429,9 @@ func runC06(c hx.Case) any {
 	}
 	if ct != "" {
 		req.Header.Set("Content-Type", ct)
+		if ct2 := jstr(c, "ct2"); ct2 != "" {
+			req.Header.Add("Content-Type", ct2) // a second header value: only the first one counts
+		}
 	}
 	in := &openapi3filter.RequestValidationInput{Request: req,
 		Options: &openapi3filter.Options{ExcludeReadOnlyValidations: jbool(c, "exro"), MultiError: jbool(c, "multi")}}
@@ -651,6 +669,124 @@ func genC06(ctx *hx.Ctx, emit func(hx.Case)) {
 			}
 		}
 	}
+	// (B2) the same request-side features declared INSIDE a composition member (allOf / anyOf / oneOf / not)
+	for _, kw := range []string{"allOf", "anyOf", "oneOf"} {
+		for af := 0; af < 8; af++ { // bit0 ro, bit1 nullable, bit2 typed string
+			for mreq := 0; mreq < 2; mreq++ { // member requires a
+				for treq := 0; treq < 2; treq++ { // top level requires a
+					for second := 0; second < 4; second++ {
+						pa := sch("ro", af&1 != 0, "nullable", af&2 != 0)
+						if af&4 != 0 {
+							pa["ty"] = "string"
+						}
+						m1 := sch("props", []any{[]any{"a", pa}})
+						if mreq == 1 {
+							m1["required"] = []any{"a"}
+						}
+						members := []any{m1}
+						switch second {
+						case 1:
+							members = append(members, sch("props", []any{[]any{"b", sch("ty", "integer", "wo", true)}}))
+						case 2:
+							members = append(members, sch("required", []any{"b"}))
+						case 3:
+							members = append([]any{sch("ty", "object", "required", []any{"c"})}, members...)
+						}
+						s := sch("ty", "object", kw, members)
+						if treq == 1 {
+							s["required"] = []any{"a"}
+						}
+						for vi := 0; vi < 16; vi++ {
+							cnt++
+							if !ctx.Thorough() && cnt%2 != 0 {
+								continue
+							}
+							kvs := []any{}
+							if av := aVals[vi&3]; av != "absent" {
+								kvs = append(kvs, "a", av)
+							}
+							if vi&4 != 0 {
+								kvs = append(kvs, "b", jI(2))
+							}
+							if vi&8 != 0 {
+								kvs = append(kvs, "c", jI(3))
+							}
+							text := renderJ(jO(kvs...), false, false)
+							for _, exro := range []bool{false, true} {
+								emit(mkCase(true, []any{mtEntry("application/json", s)}, "application/json", text, exro))
+							}
+						}
+					}
+				}
+			}
+		}
+	}
+	// not, nested compositions, null against compositions, non-object members
+	{
+		ro := sch("ty", "string", "ro", true)
+		schemas := []any{
+			sch("ty", "object", "not", sch("required", []any{"a"})),
+			sch("ty", "object", "not", sch("props", []any{[]any{"a", ro}})),
+			sch("not", sch("ty", "string")),
+			sch("not", sch()),
+			sch("anyOf", []any{sch("ty", "string"), sch("ty", "integer", "max", 3)}),
+			sch("oneOf", []any{sch("ty", "integer"), sch("ty", "number")}),
+			sch("oneOf", []any{sch("ty", "string", "nullable", true), sch("ty", "integer", "nullable", true)}),
+			sch("anyOf", []any{sch("ty", "string", "nullable", true)}),
+			sch("allOf", []any{sch("ty", "string")}, "nullable", true),
+			sch("allOf", []any{sch("nullable", true), sch("ty", "string")}),
+			sch("allOf", []any{sch("nullable", true)}, "not", sch("nullable", true)),
+			sch("ty", "object", "allOf", []any{sch("anyOf", []any{sch("props", []any{[]any{"a", ro}}), sch("required", []any{"b"})})}),
+			sch("ty", "object", "props", []any{[]any{"o", sch("oneOf", []any{sch("ty", "object", "props", []any{[]any{"a", ro}}, "required", []any{"a"}), sch("ty", "string")})}}),
+			sch("ty", "array", "items", sch("anyOf", []any{sch("ty", "object", "props", []any{[]any{"a", ro}}), sch("ty", "integer")})),
+			sch("allOf", []any{sch("ty", "object", "props", []any{[]any{"a", ro}}), sch("ty", "object", "required", []any{"a"})}),
+			sch("ty", "object", "oneOf", []any{sch("required", []any{"a"}), sch("required", []any{"b"})}),
+			sch("ty", "object", "anyOf", []any{}, "allOf", []any{}),
+		}
+		values := []any{nil, jS("x"), jI(1), jI(5), jH(1), true, jO(), jO("a", jS("x")), jO("a", nil), jO("b", jI(1)), jO("a", jS("x"), "b", jI(1)),
+			jO("o", jO("a", jS("x"))), jO("o", jO()), jO("o", jS("s")), jA(), jA(jO("a", jS("x")), jI(2)), jA(jO(), jI(1)), jA(nil)}
+		for _, s := range schemas {
+			for _, v := range values {
+				for _, exro := range []bool{false, true} {
+					emit(mkCase(true, []any{mtEntry("application/json", s)}, "application/json", renderJ(v, false, false), exro))
+				}
+			}
+		}
+	}
+	// null against compositions: which member / level is nullable decides
+	for _, kw := range []string{"allOf", "anyOf", "oneOf"} {
+		for bits := 0; bits < 32; bits++ { // top nullable, member1 nullable, member2 nullable, member2 present, not-member present
+			m1 := sch("ty", "string", "nullable", bits&2 != 0)
+			members := []any{m1}
+			if bits&8 != 0 {
+				members = append(members, sch("ty", "integer", "nullable", bits&4 != 0))
+			}
+			s := sch(kw, members, "nullable", bits&1 != 0)
+			if bits&16 != 0 {
+				s["not"] = sch("ty", "integer", "nullable", bits&4 != 0)
+			}
+			for _, v := range []any{nil, jS("x"), jI(1)} {
+				emit(mkCase(true, []any{mtEntry("application/json", s)}, "application/json", renderJ(v, false, false), false))
+				emit(mkCase(true, []any{mtEntry("application/json", sch("ty", "object", "props", []any{[]any{"p", s}}))}, "application/json", renderJ(jO("p", v), false, false), false))
+			}
+		}
+	}
+	// blank (white-space only) and white-space padded bodies for every decoder and both `required` settings
+	{
+		objS := sch("ty", "object", "props", []any{[]any{"a", sch("ty", "integer")}})
+		strS := sch("ty", "string", "minLen", 3)
+		for _, text := range []string{" ", "\n", "  \n\t", "\r\n", " {\"a\":1} ", "\n{\"a\":\"x\"}\n", " a=1", "a=1\n", " x ", "\t"} {
+			for _, req := range []bool{false, true} {
+				for _, cts := range [][2]string{{"application/json", "application/json"}, {"text/plain", "text/plain"}, {"text/plain", "text/plain; charset=utf-8"},
+					{"application/x-www-form-urlencoded", "application/x-www-form-urlencoded"}, {"application/json", "text/csv"}, {"*/*", "application/xml"},
+					{"*/*", ""}, {"application/octet-stream", "application/octet-stream"}, {"multipart/form-data", "multipart/form-data; boundary=XbX"}} {
+					for _, sc := range []any{objS, strS, nil} {
+						emit(mkCase(req, []any{mtEntry(cts[0], sc)}, cts[1], text, false))
+					}
+				}
+			}
+		}
+	}
 	// (C) urlencoded
 	fct := "application/x-www-form-urlencoded"
 	pTys := []any{"string", "integer", "number", "boolean", "array:integer", "array:string", nil}
@@ -710,6 +846,101 @@ func genC06(ctx *hx.Ctx, emit func(hx.Case)) {
 				}
 			}
 		}
+	}
+	// (C2) properties declared inside allOf / anyOf / oneOf members (also nested), each with every encoding
+	{
+		encsFor := []any{nil,
+			map[string]any{"name": "a", "style": "form", "explode": false},
+			map[string]any{"name": "a", "style": "spaceDelimited", "explode": false},
+			map[string]any{"name": "a", "style": "pipeDelimited", "explode": false},
+			map[string]any{"name": "a", "style": "form", "explode": true}}
+		aTypes := []any{"array:integer", "array:string", "integer", "string"}
+		aTexts := []string{"1|2", "1,2", "1 2", "7", "x", ""}
+		place := func(kw string, nested bool, pa map[string]any, dup int) map[string]any {
+			m := sch("props", []any{[]any{"a", pa}})
+			if nested {
+				m = sch("allOf", []any{m})
+			}
+			s := sch("ty", "object", kw, []any{sch("props", []any{[]any{"b", sch("ty", "string")}}), m})
+			switch dup {
+			case 1: // the same name declared again at top level with the same schema
+				s["props"] = []any{[]any{"a", pa}}
+			case 2: // … with another type: the two decoded values may conflict
+				s["props"] = []any{[]any{"a", sch("ty", "string")}}
+			}
+			return s
+		}
+		for _, kw := range []string{"allOf", "anyOf", "oneOf"} {
+			for _, nested := range []bool{false, true} {
+				for _, at := range aTypes {
+					for dup := 0; dup < 3; dup++ {
+						for _, e := range encsFor {
+							for ti, tx := range aTexts {
+								cnt++
+								if !ctx.Thorough() && cnt%2 != 0 {
+									continue
+								}
+								pa := mkProp(at, false)
+								if em, ok := e.(map[string]any); ok && !strings.HasPrefix(at.(string), "array:") && jstr(em, "style") != "form" {
+									continue // styles other than form only on arrays
+								}
+								if em, ok := e.(map[string]any); ok && dup == 2 && jstr(em, "style") != "form" {
+									continue // the second declaration of `a` is a string: same restriction
+								}
+								var encs []any
+								if e != nil {
+									encs = []any{e}
+								}
+								q := "a=" + url.QueryEscape(tx) + "&b=k"
+								if ti%2 == 0 {
+									q += "&a=3"
+								}
+								emit(mkCase(false, []any{mtEntry(fct, place(kw, nested, pa, dup), encs...)}, fct, q, false))
+							}
+						}
+					}
+				}
+			}
+		}
+	}
+	// (C3) the property schema itself is a composition (decodeValue's allOf / anyOf / oneOf / not branches)
+	{
+		I, S, B := sch("ty", "integer"), sch("ty", "string"), sch("ty", "boolean")
+		pvars := []any{
+			sch("anyOf", []any{I, S}), sch("anyOf", []any{S, I}), sch("oneOf", []any{I, B}), sch("oneOf", []any{B, S}),
+			sch("allOf", []any{I, sch("ty", "integer", "max", 3)}), sch("allOf", []any{I, sch("max", 3)}), sch("allOf", []any{sch("ty", "number"), I}),
+			sch("not", S), sch("anyOf", []any{sch("ty", "array", "items", I), S}), sch("anyOf", []any{sch("oneOf", []any{I, B}), S}),
+			sch("oneOf", []any{sch("allOf", []any{I}), sch("anyOf", []any{B})}), sch("anyOf", []any{I}, "nullable", true),
+		}
+		for _, pv := range pvars {
+			for ti := -1; ti < len(texts); ti++ {
+				for opt := 0; opt < 4; opt++ { // bit0 required a, bit1 second value
+					q := []string{"b=k"}
+					if ti >= 0 {
+						q = append(q, "a="+url.QueryEscape(texts[ti]))
+						if opt&2 != 0 {
+							q = append(q, "a=5")
+						}
+					}
+					req := []any{}
+					if opt&1 != 0 {
+						req = append(req, "a")
+					}
+					s := sch("ty", "object", "props", []any{[]any{"a", pv}, []any{"b", S}}, "required", req)
+					emit(mkCase(false, []any{mtEntry(fct, s)}, fct, strings.Join(q, "&"), false))
+					if opt == 0 {
+						s2 := sch("ty", "object", "allOf", []any{sch("props", []any{[]any{"a", pv}})}, "props", []any{[]any{"b", S}})
+						emit(mkCase(false, []any{mtEntry(fct, s2)}, fct, strings.Join(q, "&"), false))
+					}
+				}
+			}
+		}
+	}
+	// a second Content-Type header value is ignored
+	for _, p2 := range [][2]string{{"application/json", "text/plain"}, {"text/plain", "application/json"}, {"application/xml", "application/json"}} {
+		c := mkCase(true, []any{mtEntry("application/json", accept), mtEntry("text/plain", sch("ty", "string"))}, p2[0], bodyText, false)
+		c["ct2"] = p2[1]
+		emit(c)
 	}
 	// non-object / unsupported form schemas, malformed query
 	for _, s := range []any{sch("ty", "string"), sch(), sch("ty", "object", "props", []any{[]any{"a", sch("ty", "object")}}),
@@ -809,6 +1040,38 @@ func genMultipart(ctx *hx.Ctx, emit func(hx.Case)) {
 	emit(mkCase(true, []any{mtEntry("multipart/form-data", s)}, mct, renderMultipart(bd, l, true), false))
 	emit(mkCase(true, []any{mtEntry("multipart/form-data", sch("ty", "string"))}, mct, good, false))
 	emit(mkCase(true, []any{mtEntry("multipart/form-data", sch())}, mct, good, false))
+	// allOf schemas: the members' properties are what counts
+	for _, as := range aSchemas {
+		for variant := 0; variant < 7; variant++ {
+			m1 := sch("props", []any{[]any{"a", as}})
+			m2 := sch("props", []any{[]any{"b", sch("ty", "string", "wo", true)}}, "required", []any{"b"})
+			s := sch("ty", "object", "allOf", []any{m1, m2})
+			switch variant {
+			case 1:
+				s["props"] = []any{[]any{"c", sch("ty", "string")}} // top-level properties are not searched when allOf is present
+			case 2:
+				s["addl"] = true
+			case 3:
+				s = sch("ty", "object", "allOf", []any{m1, sch("props", []any{[]any{"a", sch("ty", "array", "items", sch("ty", "string"))}})}) // later member wins in the assembly
+			case 4:
+				s = sch("ty", "object", "allOf", []any{m1}) // a single member
+			case 5:
+				s = sch("ty", "object", "allOf", []any{sch("props", []any{[]any{"a", as}, []any{"b", sch("ty", "string")}})}, "props", []any{[]any{"c", sch("ty", "string")}})
+			case 6:
+				s = sch("ty", "object", "allOf", []any{m1, m2, sch("props", []any{[]any{"c", sch("ty", "string")}})})
+			}
+			for i := range pool {
+				for j := range pool {
+					cnt++
+					if !ctx.Thorough() && cnt%5 != 0 {
+						continue
+					}
+					text := renderMultipart(bd, []c06Part{pool[i], pool[j]}, false)
+					emit(mkCase(true, []any{mtEntry("multipart/form-data", s)}, mct, text, cnt%3 == 0))
+				}
+			}
+		}
+	}
 }
 
 // ---- random stream
@@ -865,6 +1128,59 @@ func c06RandSchema(r *hx.Rng, depth int) map[string]any {
 			s["addl"] = r.Bool()
 		}
 	}
+	if depth > 0 && r.Chance(28) {
+		// composition keywords; members are mostly object-like so that features (readOnly, required, types)
+		// occur INSIDE members
+		member := func() map[string]any {
+			m := c06RandSchema(r, depth-1)
+			if r.Chance(70) {
+				m = sch()
+				if r.Chance(50) {
+					m["ty"] = "object"
+				}
+				props := []any{}
+				for _, n := range c06Names[:1+r.Intn(3)] {
+					if r.Chance(60) {
+						p := c06RandSchema(r, depth-2)
+						if r.Chance(35) {
+							p["ro"] = true
+						} else if r.Chance(15) {
+							p["wo"] = true
+						}
+						props = append(props, []any{n, p})
+					}
+				}
+				m["props"] = props
+				req := []any{}
+				for _, n := range c06Names[:3] {
+					if r.Chance(25) {
+						req = append(req, n)
+					}
+				}
+				m["required"] = req
+				if r.Chance(15) {
+					m["addl"] = r.Bool()
+				}
+				if r.Chance(10) {
+					m["nullable"] = true
+				}
+			}
+			return m
+		}
+		kw := hx.Pick(r, []string{"allOf", "anyOf", "oneOf", "allOf", "anyOf", "oneOf", "not"})
+		if kw == "not" {
+			s["not"] = member()
+		} else {
+			ms := []any{}
+			for i, k := 0, 1+r.Intn(3); i < k; i++ {
+				ms = append(ms, member())
+			}
+			s[kw] = ms
+			if r.Chance(15) {
+				s[hx.Pick(r, []string{"allOf", "anyOf", "oneOf"})] = []any{member()}
+			}
+		}
+	}
 	if s["ty"] == nil && r.Chance(30) && depth > 0 {
 		// untyped schema with object keywords
 		s["props"] = []any{[]any{"a", c06RandSchema(r, depth-1)}}
@@ -903,7 +1219,14 @@ func c06RandValue(r *hx.Rng, s map[string]any, depth int) any {
 	}
 	ty := jstr(s, "ty")
 	if ty == "" {
-		if len(jlist(s["props"])) > 0 && r.Chance(70) {
+		for _, kw := range []string{"allOf", "anyOf", "oneOf"} {
+			if ms := jlist(s[kw]); len(ms) > 0 && r.Chance(50) {
+				if mm, ok := hx.Pick(r, ms).(map[string]any); ok && jstr(mm, "ty") != "" && jstr(mm, "ty") != "object" {
+					return c06RandValue(r, mm, depth-1)
+				}
+			}
+		}
+		if len(jlist(s["props"])) > 0 && r.Chance(70) || (len(jlist(s["allOf"]))+len(jlist(s["anyOf"]))+len(jlist(s["oneOf"])) > 0 && r.Chance(60)) {
 			ty = "object"
 		} else {
 			return randLeaf(r)
@@ -937,14 +1260,29 @@ func c06RandValue(r *hx.Rng, s map[string]any, depth int) any {
 	case "object":
 		kvs := []any{}
 		props := map[string]map[string]any{}
-		for _, kv := range jlist(s["props"]) {
-			p := jlist(kv)
-			props[p[0].(string)], _ = p[1].(map[string]any)
-		}
 		reqd := map[string]bool{}
-		for _, x := range toStrs(s["required"]) {
-			reqd[x] = true
+		var collect func(m map[string]any, d int)
+		collect = func(m map[string]any, d int) {
+			for _, kv := range jlist(m["props"]) {
+				p := jlist(kv)
+				if _, seen := props[p[0].(string)]; !seen || r.Bool() {
+					props[p[0].(string)], _ = p[1].(map[string]any)
+				}
+			}
+			for _, x := range toStrs(m["required"]) {
+				reqd[x] = true
+			}
+			if d > 0 {
+				for _, kw := range []string{"allOf", "anyOf", "oneOf"} {
+					for _, x := range jlist(m[kw]) {
+						if mm, ok := x.(map[string]any); ok && (kw == "allOf" || r.Chance(60)) {
+							collect(mm, d-1)
+						}
+					}
+				}
+			}
 		}
+		collect(s, 2)
 		for _, n := range c06Names {
 			p, declared := props[n]
 			pr := 15
@@ -991,6 +1329,9 @@ func randCase(r *hx.Rng) hx.Case {
 	if r.Chance(5) && jstr(c["body"].(map[string]any), "text") == "" {
 		c["emptyReader"] = true
 	}
+	if r.Chance(4) && jstr(c, "ct") != "" {
+		c["ct2"] = hx.Pick(r, []string{"text/plain", "application/json", "application/x-www-form-urlencoded", "*/*"})
+	}
 	return c
 }
 
@@ -1016,6 +1357,8 @@ func randCase0(r *hx.Rng) hx.Case {
 			text = text[:len(text)/2]
 		case 2:
 			text = ""
+		case 3:
+			text = hx.Pick(r, []string{" ", "\n", "  \n", "\t", " " + text + "\n"})
 		}
 		keys := []string{}
 		content := []any{}
@@ -1067,6 +1410,18 @@ func randCase0(r *hx.Rng) hx.Case {
 			}
 			if r.Chance(25) {
 				p["max"] = 3
+			}
+			if !isArr && t != "" && r.Chance(12) {
+				// the property schema itself is a composition
+				other := sch("ty", hx.Pick(r, []string{"string", "integer", "boolean"}))
+				switch r.Intn(3) {
+				case 0:
+					p = sch("anyOf", []any{p, other})
+				case 1:
+					p = sch("oneOf", []any{other, p})
+				default:
+					p = sch("allOf", []any{p})
+				}
 			}
 			props = append(props, []any{n, p})
 			if r.Chance(30) {
@@ -1131,7 +1486,31 @@ func randCase0(r *hx.Rng) hx.Case {
 		if r.Chance(30) {
 			s["addl"] = r.Bool()
 		}
+		if r.Chance(40) && len(props) > 0 {
+			// declare some of the properties inside composition members instead (sometimes both)
+			k := 1 + r.Intn(len(props))
+			moved, kept := props[:k], props[k:]
+			m := sch("props", moved)
+			if r.Chance(30) {
+				m["required"] = req
+			}
+			if r.Chance(25) {
+				m = sch(hx.Pick(r, []string{"allOf", "anyOf", "oneOf"}), []any{m})
+			}
+			members := []any{m}
+			if r.Chance(40) {
+				members = append(members, sch("props", []any{[]any{"zz", sch("ty", "string")}}))
+			}
+			if r.Chance(25) {
+				kept = append(append([]any{}, kept...), moved[0]) // declared twice with the same schema
+			}
+			s["props"] = kept
+			s[hx.Pick(r, []string{"allOf", "anyOf", "oneOf"})] = members
+		}
 		text := strings.Join(q, "&")
+		if r.Chance(2) {
+			text = hx.Pick(r, []string{" ", "\n", " \t "})
+		}
 		fct := "application/x-www-form-urlencoded"
 		ct := fct
 		if r.Chance(20) {
@@ -1321,6 +1700,43 @@ func c06ShrinkSchema(s map[string]any) []map[string]any {
 			x := cp()
 			x["items"] = i2
 			out = append(out, x)
+		}
+	}
+	if n, ok := s["not"].(map[string]any); ok {
+		x := cp()
+		delete(x, "not")
+		out = append(out, x)
+		for _, n2 := range c06ShrinkSchema(n) {
+			x := cp()
+			x["not"] = n2
+			out = append(out, x)
+		}
+	}
+	for _, kw := range []string{"allOf", "anyOf", "oneOf"} {
+		ms := jlist(s[kw])
+		if len(ms) == 0 {
+			continue
+		}
+		x := cp()
+		delete(x, kw)
+		out = append(out, x)
+		if len(ms) > 1 {
+			for _, n := range dropEach(ms) {
+				x := cp()
+				x[kw] = n
+				out = append(out, x)
+			}
+		}
+		for i, m := range ms {
+			if mm, ok := m.(map[string]any); ok {
+				for _, m2 := range c06ShrinkSchema(mm) {
+					x := cp()
+					nl := append([]any{}, ms...)
+					nl[i] = m2
+					x[kw] = nl
+					out = append(out, x)
+				}
+			}
 		}
 	}
 	return out
